@@ -680,6 +680,20 @@ func generate(r *kit.Rng, maxStmts int) *Set {
 		mb.WriteString("  }\n")
 		t.children = append(t.children, g.expand(add)...)
 	}
+	// a module-level augment of a top-level choice whose body is a uses: every node of
+	// the grouping becomes a (shorthand) case of its own, after the written cases
+	for _, n := range rootNodes {
+		if n.kind == "choice" && r.Chance(1, 2) {
+			gname := g.id("grp")
+			l1, l2 := g.id("f"), g.id("f")
+			fmt.Fprintf(&mb, "  grouping %s { leaf %s { type string; } leaf %s { type int32; } }\n", gname, l1, l2)
+			fmt.Fprintf(&mb, "  augment \"/%s\" { uses %s; }\n", n.name, gname)
+			for _, ln := range []string{l1, l2} {
+				n.children = append(n.children, &node{name: ln, kind: "case", children: []*node{{name: ln, kind: "leaf"}}})
+			}
+			break
+		}
+	}
 	// deviations: remove one child that has at least two later siblings
 	for _, t := range targets {
 		if len(t.children) >= 4 && r.Chance(1, 2) {
